@@ -94,8 +94,12 @@ func quoteOKCoerced(quote, lineText string) bool {
 		return true
 	}
 	if len(lineText) > 200 && strings.HasSuffix(quote, "...") {
-		cut := strings.TrimLeft(lineText[:197], " \t\r\n")
-		return quote == JSONCoerce(cut)+"..."
+		for back := 0; back <= 3; back++ {
+			cut := strings.TrimLeft(lineText[:197-back], " \t\r\n")
+			if quote == JSONCoerce(cut)+"..." && (utf8.RuneStart(lineText[197-back]) || !utf8.ValidString(lineText)) {
+				return true
+			}
+		}
 	}
 	return false
 }
@@ -124,8 +128,14 @@ func quoteOK(quote, lineText string) bool {
 		return true
 	}
 	if len(lineText) > 200 && strings.HasSuffix(quote, "...") {
-		cut := strings.TrimLeft(lineText[:197], " \t\r\n")
-		return quote == cut+"..."
+		// cut after 197 bytes, or up to three bytes earlier so that no multibyte character is cut in two
+		for back := 0; back <= 3; back++ {
+			end := 197 - back
+			cut := strings.TrimLeft(lineText[:end], " \t\r\n")
+			if quote == cut+"..." && (utf8.RuneStart(lineText[end]) || !utf8.ValidString(lineText)) {
+				return true // a line of valid UTF-8 is never cut inside a character
+			}
+		}
 	}
 	return false
 }
